@@ -297,6 +297,115 @@ def append_map(func, mask_vars):
     return out
 
 
+def merge_temp_accumulators(fn, mask_vars):
+    """within one statement list: `t = 0; ... t |= e ...; v = t or C` -> `v = 0; ... v |= e ...; if not v: v = C`; `... ; v = t` -> `v = 0; ...`;
+    `t = 0; ... t |= e ...; v |= t` -> `... v |= e ...` when t is not read in between: a temporary accumulator that is only copied / OR-ed into
+    a mask word is that mask word. Works on a copy."""
+    import copy as _copy
+    fn = _copy.deepcopy(fn)
+
+    def blocks(node):
+        for n in ast.walk(node):
+            for field in ('body', 'orelse', 'finalbody'):
+                blk = getattr(n, field, None)
+                if isinstance(blk, list) and blk and isinstance(blk[0], ast.stmt):
+                    yield blk
+
+    def use(st):
+        """-> (target mask word, temporary, default or None, 'assign' | 'or') for the statement that consumes a temporary"""
+        if isinstance(st, ast.Assign) and len(st.targets) == 1 and isinstance(st.targets[0], ast.Name) and st.targets[0].id in mask_vars:
+            v = st.value
+            if isinstance(v, ast.BoolOp) and isinstance(v.op, ast.Or) and len(v.values) == 2 and isinstance(v.values[0], ast.Name) \
+                    and isinstance(v.values[1], ast.Constant) and isinstance(v.values[1].value, int):
+                return st.targets[0].id, v.values[0].id, v.values[1], 'assign'
+            if isinstance(v, ast.Name):
+                return st.targets[0].id, v.id, None, 'assign'
+        if isinstance(st, ast.AugAssign) and isinstance(st.op, ast.BitOr) and isinstance(st.target, ast.Name) and st.target.id in mask_vars \
+                and isinstance(st.value, ast.Name):
+            return st.target.id, st.value.id, None, 'or'
+        return None
+
+    # `t = 0; ... t |= e ...; X = C | t`  ->  `t = C; ... t |= e ...; X = t`   (| is commutative and associative, t only accumulates)
+    for blk in blocks(fn):
+        for j, st in enumerate(blk):
+            if not (isinstance(st, ast.Assign) and len(st.targets) == 1 and not isinstance(st.targets[0], ast.Name) and isinstance(st.value, ast.BinOp)
+                    and isinstance(st.value.op, ast.BitOr)):
+                continue
+            l, r = st.value.left, st.value.right
+            if isinstance(r, ast.Constant):
+                l, r = r, l
+            if not (isinstance(l, ast.Constant) and isinstance(l.value, int) and isinstance(r, ast.Name) and r.id in mask_vars):
+                continue
+            tmp = r.id
+            inits = [i for i in range(j) if isinstance(blk[i], ast.Assign) and len(blk[i].targets) == 1 and isinstance(blk[i].targets[0], ast.Name)
+                     and blk[i].targets[0].id == tmp and isinstance(blk[i].value, ast.Constant) and blk[i].value.value == 0]
+            if not inits:
+                continue
+            i = inits[-1]
+            seg = blk[i + 1:j]
+            loads = [n for x in seg for n in ast.walk(x) if isinstance(n, ast.Name) and n.id == tmp and isinstance(n.ctx, ast.Load)]
+            plain = [n for x in seg for n in ast.walk(x) if isinstance(n, ast.Assign) and any(isinstance(t, ast.Name) and t.id == tmp for t in n.targets)]
+            augs = [n for x in seg for n in ast.walk(x) if isinstance(n, ast.AugAssign) and isinstance(n.target, ast.Name) and n.target.id == tmp]
+            if loads or plain or not all(isinstance(n.op, ast.BitOr) for n in augs):
+                continue
+            blk[i].value = ast.copy_location(ast.Constant(value=l.value), blk[i].value)
+            st.value = ast.copy_location(ast.Name(id=tmp, ctx=ast.Load()), st.value)
+
+    for _ in range(8):
+        changed = False
+        for blk in blocks(fn):
+            for j, st in enumerate(blk):
+                u = use(st)
+                if u is None or u[0] == u[1]:
+                    continue
+                target, tmp, default, how = u
+                inits = [i for i in range(j) if isinstance(blk[i], ast.Assign) and len(blk[i].targets) == 1 and isinstance(blk[i].targets[0], ast.Name)
+                         and blk[i].targets[0].id == tmp and isinstance(blk[i].value, ast.Constant) and isinstance(blk[i].value.value, int)]
+                if not inits:
+                    continue
+                i = inits[-1]
+                seg = blk[i:j]
+                ok = True
+                for x in seg:
+                    for n in ast.walk(x):
+                        if isinstance(n, ast.Name) and n.id == tmp and isinstance(n.ctx, ast.Load):
+                            ok = False
+                        if isinstance(n, ast.Name) and n.id == target and how == 'assign':
+                            ok = False  # the word itself is touched in between
+                    for n in ast.walk(x):
+                        if isinstance(n, (ast.Assign, ast.AugAssign)):
+                            tg = n.targets if isinstance(n, ast.Assign) else [n.target]
+                            if any(isinstance(t, ast.Name) and t.id == tmp for t in tg):
+                                if isinstance(n, ast.Assign) and not (isinstance(n.value, ast.Constant) and isinstance(n.value.value, int)):
+                                    ok = False
+                                if isinstance(n, ast.AugAssign) and not isinstance(n.op, ast.BitOr):
+                                    ok = False
+                if not ok:
+                    continue
+                for x in seg:
+                    for n in ast.walk(x):
+                        if isinstance(n, ast.Name) and n.id == tmp:
+                            n.id = target
+                if how == 'or':
+                    c = blk[i].value
+                    blk[i] = ast.copy_location(ast.Pass(), blk[i]) if c.value == 0 else \
+                        ast.fix_missing_locations(ast.copy_location(ast.AugAssign(target=ast.Name(id=target, ctx=ast.Store()), op=ast.BitOr(), value=c), blk[i]))
+                    blk[j] = ast.copy_location(ast.Pass(), st)
+                elif default is None:
+                    blk[j] = ast.copy_location(ast.Pass(), st)
+                else:
+                    fix = ast.If(test=ast.UnaryOp(op=ast.Not(), operand=ast.Name(id=target, ctx=ast.Load())),
+                                 body=[ast.Assign(targets=[ast.Name(id=target, ctx=ast.Store())], value=default, lineno=st.lineno)], orelse=[])
+                    blk[j] = ast.fix_missing_locations(ast.copy_location(fix, st))
+                changed = True
+                break
+            if changed:
+                break
+        if not changed:
+            break
+    return fn
+
+
 def analyse_encoders(repo):
     import copy as _copy
     from .astutil import inline_accumulator_helpers
@@ -306,6 +415,8 @@ def analyse_encoders(repo):
     mol.node = inline_accumulator_helpers(mol.node, mol.module.tree)
     qry.node = inline_accumulator_helpers(qry.node, qry.module.tree)
     mv = ('v1', 'v2', 'v3', 'v4', 'v')
+    mol.node = merge_temp_accumulators(mol.node, mv)
+    qry.node = merge_temp_accumulators(qry.node, mv)
     mloop = find_loop(mol, lambda n: 'self.atoms()' in ast.unparse(n.iter) and any(
         isinstance(x, ast.Name) and x.id == 'a' for x in ast.walk(n.target)))
     mw = EncoderWalker(mol, 'a', mv)
